@@ -805,6 +805,9 @@ func c09E2E(c *Ctx, tuples []c09Tuple) {
 	wg.Wait()
 	c09SameTextTwice(c, bed)
 	c09KeyspaceSwitchSameConn(c, bed)
+	if c.Shard == 0 {
+		c09PrepareKeyspaceOption(c)
+	}
 
 	if atomic.LoadInt32(&stalls) >= c09MaxStalls {
 		r.Inconc(fmt.Sprintf("C09 e2e: %d requests were never answered; the rest of this shard's sample was abandoned", stalls))
@@ -1132,6 +1135,108 @@ func c09KeyspaceSwitchSameConn(c *Ctx, bed *px.Bed) {
 						}
 					}
 					_ = okRun
+					cl.Close()
+				}
+			}
+		}
+	}
+}
+
+// c09PrepareKeyspaceOption: protocol v5 and DSEv2 let a PREPARE name the keyspace its statement is to be resolved in. That
+// keyspace, when given, takes the place of the connection's current keyspace for the proxy's decision: an unqualified
+// `local` prepared with keyspace option ks1 on a connection that sits in keyspace system is a user table (forwarded); with
+// option system on a connection in ks1 it is a read of system.local (answered by the proxy, never forwarded). Every PREPARE
+// must be answered at all - PREPARED or ERROR - on these versions too, and an EXECUTE of a proxy-made id must return rows
+// without any backend seeing it.
+func c09PrepareKeyspaceOption(c *Ctx) {
+	r := c.R
+	c.Step("c09 PREPARE with keyspace option (v5 / DSEv2)")
+	bed, err := px.NewBed(px.BedConfig{Hosts: 2, NumConns: 1, Keyspaces: []string{"ks1"}, KeepBodies: true, MaxVersion: primitive.ProtocolVersionDse2})
+	if err != nil {
+		r.Inconc("C09 prepare-keyspace: cannot start bed: " + err.Error())
+		return
+	}
+	defer bed.Close()
+	sys := map[string]bool{"local": true, "peers": true}
+	n := 0
+	for _, ver := range []primitive.ProtocolVersion{primitive.ProtocolVersion5, primitive.ProtocolVersionDse2} {
+		for _, connKs := range []string{"", "system", "ks1"} {
+			for _, opt := range []string{"", "system", "ks1"} {
+				for _, tbl := range []string{"local", "peers", "system.local", "ks1.peers", "t"} {
+					cl, err := bed.ReadyClient(ver, "")
+					if err != nil {
+						r.Inconc("C09 prepare-keyspace: " + err.Error())
+						return
+					}
+					if connKs != "" {
+						if f, err := cl.Call(1, &message.Query{Query: "USE " + connKs, Options: &message.QueryOptions{Consistency: primitive.ConsistencyLevelOne}}, c09Wait); err != nil || f.OpCode != primitive.OpCodeResult {
+							r.Inconc("C09 prepare-keyspace: USE failed")
+							cl.Close()
+							continue
+						}
+					}
+					n++
+					lit := fmt.Sprintf("prepks%05d", n)
+					text := fmt.Sprintf("SELECT * FROM %s WHERE key='%s'", tbl, lit)
+					eff := connKs
+					if opt != "" {
+						eff = opt
+					}
+					handled := false
+					if i := strings.IndexByte(tbl, '.'); i >= 0 {
+						handled = tbl[:i] == "system" && sys[tbl[i+1:]]
+					} else {
+						handled = eff == "system" && sys[tbl]
+					}
+					mark := bed.Log.Len()
+					f, perr := cl.Call(2, &message.Prepare{Query: text, Keyspace: opt}, c09Wait)
+					_, _ = cl.Call(3, &message.Query{Query: "SELECT * FROM ks1.t WHERE key='" + NewTok() + "'", Options: &message.QueryOptions{Consistency: primitive.ConsistencyLevelOne}}, c09Wait) // barrier
+					seen := 0
+					for _, e := range bed.Log.Snapshot()[mark:] {
+						if e.Src == "backend" && e.K == "recv" && !e.Ctl && bytes.Contains(e.Body, []byte(lit)) {
+							seen++
+						}
+					}
+					r.Eval(1)
+					r.Obs("prepare_keyspace_option_cases", 1)
+					r.NonTrivial(fmt.Sprintf("prepare-keyspace/v%d/conn=%s/opt=%s/%s", ver, connKs, opt, tbl))
+					sc := map[string]interface{}{"kind": "c09-prepare-keyspace", "n": n}
+					where := fmt.Sprintf("protocol version %s, connection keyspace %q, PREPARE %q with keyspace option %q", c13VerName(ver), connKs, text, opt)
+					switch {
+					case perr != nil || f == nil:
+						state := "no reply"
+						if cl.IsClosed() {
+							state = "the proxy closed the connection without a reply"
+						}
+						r.Violate(mon.Violation{Signature: fmt.Sprintf("C09/prepare-not-answered/%s/handled=%v", c13VerName(ver), handled), Detail: where + ": " + state, Scenario: sc})
+					case handled && seen > 0:
+						r.Violate(mon.Violation{Signature: "C09/prepare-keyspace-option/system-read-forwarded/" + c13VerName(ver), Detail: fmt.Sprintf("%s: the statement reads system.%s and must be answered by the proxy; it reached a backend %d times", where, strings.TrimPrefix(tbl, "system."), seen), Scenario: sc})
+					case !handled && seen != 1:
+						r.Violate(mon.Violation{Signature: "C09/prepare-keyspace-option/user-statement-intercepted/" + c13VerName(ver), Detail: fmt.Sprintf("%s: the statement is resolved in keyspace %q, not in system, and must be forwarded; it reached a backend %d times", where, eff, seen), Scenario: sc})
+					case handled:
+						kind, m := c09ReplyKind(cl, f)
+						pr, ok := m.(*message.PreparedResult)
+						if !ok {
+							r.Obs("prepare_keyspace_handled_not_prepared:"+kind, 1)
+							break
+						}
+						mark2 := bed.Log.Len()
+						ef, eerr := cl.Call(4, &message.Execute{QueryId: pr.PreparedQueryId, ResultMetadataId: pr.ResultMetadataId, Options: &message.QueryOptions{Consistency: primitive.ConsistencyLevelOne}}, c09Wait)
+						fw := 0
+						for _, e := range bed.Log.Snapshot()[mark2:] {
+							if e.Src == "backend" && e.K == "recv" && !e.Ctl && primitive.OpCode(e.Op) == primitive.OpCodeExecute && bytes.Contains(e.Body, pr.PreparedQueryId) {
+								fw++
+							}
+						}
+						ek := "no reply"
+						if eerr == nil && ef != nil {
+							ek, _ = c09ReplyKind(cl, ef)
+						}
+						r.Obs("prepare_keyspace_executes", 1)
+						if fw > 0 || ek != "ROWS" {
+							r.Violate(mon.Violation{Signature: "C09/prepare-keyspace-option/execute-of-proxy-made-id/" + c13VerName(ver), Detail: fmt.Sprintf("%s was answered PREPARED by the proxy; the EXECUTE of that id was answered %q and reached a backend %d times", where, ek, fw), Scenario: sc})
+						}
+					}
 					cl.Close()
 				}
 			}
